@@ -14,7 +14,8 @@ RULE = ('Hypothesis: framing in {tcp,rtu,ascii,binary,tls} x message (any regist
         'default) calls back exactly once, the PDU bytes handed to the decoder (recording proxy) equal the original PDU, '
         'unit/tid/pid preserved, buffer empty, nothing raised, delivered fields equal the original; (c) computeCRC/LRC == '
         'bitwise reference, checkCRC/checkLRC accept exactly the matching value. Non-trivial: PDU with >=1 data byte; '
-        'delimiter-bearing payloads labelled separately; distinct by SHA-1.')
+        'delimiter-bearing payloads labelled separately; distinct by SHA-1. A sweep constructs frames whose own CRC / LRC is a '
+        'special value (0x0000, 0xFFFF, a zero or 0xFF byte, a delimiter value) by enumeration over 65536 addresses.')
 ASSUMPTIONS = ['vlib/refframe.py is the framing specification (self-checked against CRC/LRC/MBAP reference vectors)',
                'binary framing reference = {, unit, function, data, CRC-16 low byte first, } as the property states; '
                'escaping of delimiter bytes inside the frame is not specified by the property, so (a) is judged for '
